@@ -43,6 +43,7 @@ class Line:
         self.chunker = None      # callable(len) -> segment lengths
         self.corrupt = None      # (block_index, offset, mask) for the next transfer's block bytes
         self.block_counter = 0
+        self.block_pause = 0.0   # seconds the line takes before it delivers the second and every later block of a transfer
         a.pipe.on_send = lambda data, gen: self._forward("H", "E", data)
         b.pipe.on_send = lambda data, gen: self._forward("E", "H", data)
 
@@ -53,6 +54,8 @@ class Line:
                 idx = self.block_counter
                 self.block_counter += 1
                 cor = self.corrupt
+            if self.block_pause and idx > 0:
+                time.sleep(self.block_pause)
             if cor is not None and cor[0] == idx:
                 bad = bytearray(data)
                 bad[cor[1]] ^= cor[2]
@@ -210,13 +213,32 @@ def _transfer(ctx, line, src, body_len, sf, wbit, corrupt=None, via="send_messag
     return "nak"
 
 
-def _new_line():
+def _new_line(**timeouts):
     import secsgem.common
     from lib.secsirig import SecsIRig
 
-    h = SecsIRig(device_type=secsgem.common.DeviceType.HOST)
-    e = SecsIRig(device_type=secsgem.common.DeviceType.EQUIPMENT)
+    h = SecsIRig(device_type=secsgem.common.DeviceType.HOST, **timeouts)
+    e = SecsIRig(device_type=secsgem.common.DeviceType.EQUIPMENT, **timeouts)
     return Line(h, e)
+
+
+def _slow_line(ctx, header_only, rounds):
+    """A slow line: the blocks of a message follow each other with pauses that are each shorter than the inter-block time-out T4
+    but add up to more than T4. Every block is within its time: the message arrives whole."""
+    rng = ctx.rng
+    line = _new_line(t4=0.6)
+    try:
+        for _ in range(rounds):
+            nblocks = rng.choice([3, 4, 5])
+            line.block_pause = 0.6 * rng.choice([0.45, 0.6, 0.8])     # < T4 each, > T4 in total from the first block on
+            ctx.count("transfer.slow_line_multi_block")
+            res = _transfer(ctx, line, rng.choice("HE"), 244 * (nblocks - 1) + rng.randint(1, 200), rng.choice(header_only), False)
+            line.block_pause = 0.0
+            if res == "dead":
+                line = _new_line(t4=0.6)
+    finally:
+        for end in line.ends.values():
+            end.close()
 
 
 def run(ctx):
@@ -255,6 +277,7 @@ def run(ctx):
                 if _transfer(ctx, line, src, rng.choice([0, 5]), rng.choice(header_only), False) == "dead":
                     line = _new_line()
     ctx.exhaustive["corruption_position_of_two_fixed_messages"] = True
+    _slow_line(ctx, header_only, 2 if ctx.quick else 40)
     n = 300 if ctx.quick else 10000
     max_blocks = 3 if ctx.quick else 40
     from lib import sched
